@@ -14,6 +14,7 @@ import (
 func init() {
 	register(&PropDef{ID: "C01", Title: "In-memory filespace behaves as an abstract file tree on every history", Rules: rulesC01,
 		Explanation: "Decided (structural necessary conditions, package memfs, all paths): R1 every path parameter of every memfs.Filespace method reaches lookup/creation helpers only through CleanPath/ReduceAbsPath (sibling queries answer alike for redundant spellings); R2 list and name index of a directory change together under one lock hold; R3 on the empty-only path a directory is removed only after an emptiness test on that directory; R4 copies are deep: copyFile hands NewFile a freshly allocated slice, every element of a copied directory's child list is the result of copyDir/copyFile; R5 slices returned through ReadFile/ReadDir never alias File.data/Dir.nodes; R6 a caller-supplied []byte is never stored into File.data without a copy; R7 create-or-replace happens under the directory's outer lock; R8 each child-view method calls the same-named operation of the wrapped filespace with its arguments in order and returns its results; R9/R10 every path a child view hands to the wrapped filespace (and the base of a nested view) is reduced before it is joined to the view's base, so a child view is a relabelling of its own subtree only. " +
+			"R11 varutil.CleanPath strips the leading separator from the output of path.Clean (clean first, then strip: otherwise '//d/f' yields a node named '' and '/../x' a node named '..'); R12 the filespace object remembers no tree node but its root (a memoised *Dir can be detached by a Remove and then swallows writes); R4 also requires that copyFile/copyDir return a newly built node on every path. " +
 			"NOT decided: equality of results and tree with the abstract model over histories, listing order, error cases, and the phantom-node clause ('.', '', '..' as node names: MkdirAll(\".\") creates a node named '.' on today's tree — a value-level defect outside this family's reach, see DESIGN.md §6).",
 	})
 }
@@ -214,6 +215,10 @@ func rulesC01(c *Ctx) {
 	n9, n10, _ := viewConfinementRules(c, iface, c.P.Implementers(iface), []*types.Named{wrapT}, "R9", "R10", "R11")
 	c.Floor("R9", n9, 19)
 	c.Floor("R10", n10, 1)
+
+	// ---- R11 the cleaner strips the separator from Clean's output; R12 no remembered nodes ----
+	ruleCleanerOrder(c, "R11")
+	ruleNoNodeMemo(c, "R12")
 }
 
 func sortedKeys(m map[string]*ssa.Function) []string {
@@ -339,14 +344,16 @@ func isPtrTo(t types.Type, n *types.Named) bool {
 }
 
 // ruleDeepCopy (R4).
-func ruleDeepCopy(c *Ctx, dirT, fileT *types.Named) {
+func ruleDeepCopy(c *Ctx, dirT, fileT *types.Named) { ruleDeepCopyAs(c, "R4") }
+
+func ruleDeepCopyAs(c *Ctx, R4 string) {
 	n := 0
 	newFile := mq(memfsPkg, "", "NewFile")
 	newDir := mq(memfsPkg, "", "NewDir")
 	copyFile := c.P.Func(memfsPkg, "", "copyFile")
 	copyDir := c.P.Func(memfsPkg, "", "copyDir")
 	if copyFile == nil || copyDir == nil {
-		c.Bad("R4", "memfs.copyFile/copyDir", 0, "anchor not found")
+		c.Bad(R4, "memfs.copyFile/copyDir", 0, "anchor not found")
 		return
 	}
 	// copyFile: data handed to NewFile is fresh
@@ -363,16 +370,16 @@ func ruleDeepCopy(c *Ctx, dirT, fileT *types.Named) {
 			}
 		}
 		if data == nil {
-			c.Bad("R4", "copyFile -> NewFile data", ci.Pos(), "no slice argument found")
+			c.Bad(R4, "copyFile -> NewFile data", ci.Pos(), "no slice argument found")
 			continue
 		}
 		os := Origins(data, FlowOpts{Alias: true, Interproc: 2})
 		fresh := allOrigins(os, func(o Origin) bool { return o.Kind == "alloc" || o.Kind == "nil" || o.Kind == "const" })
-		c.Check(fresh, "R4", "copyFile -> NewFile data", ci.Pos(), "the copy's bytes come from a fresh allocation",
+		c.Check(fresh, R4, "copyFile -> NewFile data", ci.Pos(), "the copy's bytes come from a fresh allocation",
 			"the new file shares its bytes with "+originsString(os)+" — a write to the copy changes the original")
 	}
 	if len(CallsTo(copyFile, newFile)) == 0 {
-		c.Bad("R4", "copyFile -> NewFile data", copyFile.Pos(), "copyFile no longer builds its result with NewFile; cannot certify the copy is deep")
+		c.Bad(R4, "copyFile -> NewFile data", copyFile.Pos(), "copyFile no longer builds its result with NewFile; cannot certify the copy is deep")
 	}
 	// copyDir: the child list handed to NewDir is fresh and each element is a copy
 	for _, ci := range CallsTo(copyDir, newDir) {
@@ -388,13 +395,13 @@ func ruleDeepCopy(c *Ctx, dirT, fileT *types.Named) {
 			}
 		}
 		if list == nil {
-			c.Bad("R4", "copyDir -> NewDir nodes", ci.Pos(), "no slice argument found")
+			c.Bad(R4, "copyDir -> NewDir nodes", ci.Pos(), "no slice argument found")
 			continue
 		}
 		los := Origins(list, FlowOpts{Alias: true})
 		fresh := allOrigins(los, func(o Origin) bool { return o.Kind == "alloc" })
 		if !fresh {
-			c.Bad("R4", "copyDir -> NewDir nodes", ci.Pos(), "the copy's child list shares its backing store with "+originsString(los))
+			c.Bad(R4, "copyDir -> NewDir nodes", ci.Pos(), "the copy's child list shares its backing store with "+originsString(los))
 			continue
 		}
 		// every element stored into the list
@@ -424,11 +431,11 @@ func ruleDeepCopy(c *Ctx, dirT, fileT *types.Named) {
 		if stores == 0 {
 			bad = "no element store into the copy's child list found (shape changed; cannot certify)"
 		}
-		c.Check(bad == "", "R4", "copyDir -> NewDir nodes", ci.Pos(), fmt.Sprintf("%d element store(s), each the result of a recursive copy", stores),
+		c.Check(bad == "", R4, "copyDir -> NewDir nodes", ci.Pos(), fmt.Sprintf("%d element store(s), each the result of a recursive copy", stores),
 			bad+" — the copy shares a node with the source tree")
 	}
 	if len(CallsTo(copyDir, newDir)) == 0 {
-		c.Bad("R4", "copyDir -> NewDir nodes", copyDir.Pos(), "copyDir no longer builds its result with NewDir; cannot certify the copy is deep")
+		c.Bad(R4, "copyDir -> NewDir nodes", copyDir.Pos(), "copyDir no longer builds its result with NewDir; cannot certify the copy is deep")
 	}
 	// both node kinds handled: copyDir reaches copyFile and itself
 	n++
@@ -437,8 +444,29 @@ func ruleDeepCopy(c *Ctx, dirT, fileT *types.Named) {
 		hasN := len(CallsTo(copyDir, mq(memfsPkg, "", "copyNode"))) > 0
 		hasF, hasD = hasF || hasN, hasD || hasN
 	}
-	c.Check(hasF && hasD, "R4", "copyDir handles both node kinds", copyDir.Pos(), "recurses into directories and copies files", "copyDir does not copy one of the node kinds")
-	c.Floor("R4", n, 3)
+	// the copy functions return a fresh node, never one of the source tree (no sharing "when nothing changes")
+	for _, cf := range []*ssa.Function{copyFile, copyDir} {
+		n++
+		bad := ""
+		for _, r := range returnsOf(cf) {
+			if len(r.Results) == 0 {
+				continue
+			}
+			for _, o := range Origins(r.Results[0], FlowOpts{}) {
+				switch {
+				case o.Kind == "nil" || o.Kind == "alloc":
+				case o.Kind == "call" && (strings.HasPrefix(o.Name, newFile+"#") || strings.HasPrefix(o.Name, newDir+"#")):
+				case o.Kind == "call" && (strings.HasPrefix(o.Name, mq(memfsPkg, "", "copyDir")+"#") || strings.HasPrefix(o.Name, mq(memfsPkg, "", "copyFile")+"#") || strings.HasPrefix(o.Name, mq(memfsPkg, "", "copyNode")+"#")):
+				default:
+					bad = "returns " + o.String() + " instead of a newly built node"
+				}
+			}
+		}
+		c.Check(bad == "", R4, "result of memfs."+cf.Name(), cf.Pos(), "every returned node is newly built",
+			bad+" — source and copy share one node, so a write through either name (or through a child view holding the copy) changes the other")
+	}
+	c.Check(hasF && hasD, R4, "copyDir handles both node kinds", copyDir.Pos(), "recurses into directories and copies files", "copyDir does not copy one of the node kinds")
+	c.Floor(R4, n, 3)
 	_ = constant.MakeBool
 }
 
